@@ -488,6 +488,21 @@ func VerifyFunc(w *World, fi *FuncInfo) (res *FuncResult) {
 	}
 	call := &ast.CallExpr{Ellipsis: token.Pos(1)} // variadic parameter is bound as a slice
 	x.bindParams(fr, st, recv, args, call)
+	// clauses may use the names the contract was written with (recvname / params, positional)
+	if !sp.Extern {
+		if sp.RecvName != "" && sig.Recv() != nil {
+			if key, ok := fr.scope[sig.Recv().Name()]; ok {
+				fr.scope[sp.RecvName] = key
+			}
+		}
+		for k, n := range sp.Params {
+			if k < sig.Params().Len() && n != "" && n != "_" {
+				if key, ok := fr.scope[sig.Params().At(k).Name()]; ok {
+					fr.scope[n] = key
+				}
+			}
+		}
+	}
 	for k, v := range x.bindSpecVars(fi, recv, args) {
 		vars[k] = v
 	}
